@@ -6,6 +6,7 @@ Template directives (column 0):
   @include FILE                     prelude file from /verif/prelude (verbatim, trusted/spec text)
   @rules ID ID ...                  rule groups (rules.py) applied to every following extraction
   @cast "expr" CONVERTER            R2 table entry:  `expr as f64` -> F::CONVERTER(expr)
+  @gen NAME ARGS                    spec text generated from the working tree by vx/gen.py (code-derived shapes)
   @verbatim ... @end                hand-written Verus text (spec fns, shims, impl wrappers, lemmas)
   @struct FILE NAME                 extract a struct definition
   @fn FILE IMPL_RE NAME [opts]      extract a function; IMPL_RE '-' = free function
@@ -31,6 +32,7 @@ import json
 from . import rustsrc as R
 from .rustsrc import ExtractError
 from . import rules as RULES
+from . import gen as GEN
 
 VERIF = os.path.dirname(os.path.dirname(os.path.abspath(__file__)))
 TAG = "/*@*/"
@@ -162,6 +164,11 @@ def build(unit_path, repo, canary=False):
         elif d == "@cast":
             m = re.match(r'\s*"([^"]*)"\s+(\w+)', arg)
             u.casts[m.group(1)] = m.group(2); i += 1
+        elif d == "@gen":
+            gname, _, gargs = arg.strip().partition(" ")
+            u.emit(GEN.GENERATORS[gname](repo, gargs), ("spec", "%s:%d (generated by vx/gen.py:%s from the working tree)" % (os.path.basename(unit_path), i + 1, gname)))
+            u.rule_counts["Rgen:" + gname] = u.rule_counts.get("Rgen:" + gname, 0) + 1
+            i += 1
         elif d == "@verbatim":
             j = i + 1
             buf = []
